@@ -152,3 +152,13 @@ func RandomWords(r *fw.Rand, n int, initialismPct int) []string {
 	}
 	return out
 }
+
+// KnownC19Finding reports whether a Go name built from words falls into the
+// open C19 finding (an initialism run followed by a final two-letter
+// capitalised word is glued together by DecodeGoCamelCase). Checks that
+// derive names from field names (C11, C12, ...) do not generate such names,
+// so that the one defect is reported once, by C19.
+func KnownC19Finding(words []string) bool {
+	n := len(words)
+	return n >= 2 && len(words[n-1]) == 2 && !IsInitialism(words[n-1]) && IsInitialism(words[n-2])
+}
